@@ -12,6 +12,24 @@ kinds:
 """
 
 
+# fields that carry a scaled value (C10) AND a 'not available' code (C11): the link of the field to its leaf relation is an
+# obligation of both properties (a wrong width or offset at the per-type level breaks the sentinel just as it breaks the value)
+SENTINEL_KINDS = ('srel:lon_rel', 'srel:lat_rel', 'srel:lon10_rel', 'srel:lat10_rel', 'rel:sog_rel', 'rel:cog_rel', 'rel:sog_sar_rel', 'rel:sog27_rel', 'rel:cog27_rel')
+
+
+def expand(fields):
+    out = []
+    for f in fields:
+        out.append(f)
+        if f[4] == 'C10' and any(f[1] == k or f[1].startswith(k + ':') for k in SENTINEL_KINDS):
+            out.append(tuple(f[:4]) + ('C11',))
+        if f[4] == 'C11':
+            # C04 lists time stamps and slot parameters among "every integer ... equals what was transmitted": the position and width
+            # of a field with a 'not available' code are obligations of C04 as well
+            out.append(tuple(f[:4]) + ('C04',))
+    return out
+
+
 def clause(f):
     name, kind, off, w = f[0], f[1], f[2], f[3]
     fl = 'fld(o, %s, %s)' % (off, w)
@@ -39,6 +57,7 @@ def clause(f):
 def gen_posts(prefix, struct, fields, extra=None, guard=None):
     """returns (spec_text, {tag: spec_fn_name}).  `extra` = {tag: [clauses over o, n, r]} for clauses that do not
     live under `r is Ok`; `guard` = optional condition on o under which the field clauses are claimed."""
+    fields = expand(fields)
     tags = []
     for f in fields:
         if f[4] not in tags:
